@@ -240,6 +240,12 @@ class DataConnection(Connection, abc.ABC):
             await self.disconnect(CloseReason.CONNECT_FAILED)
             raise ConnectionFailedError(f"{self.hostname}:{self.port} : failed to connect") from exc
 
+        except asyncio.CancelledError:
+            # The connection attempt got cancelled: the connection should not
+            # remain in the CONNECTING state
+            await self.disconnect(CloseReason.REQUESTED)
+            raise
+
         else:
             adapter.debug("connected", extra=self.__dict__)
             await self.set_state(ConnectionState.CONNECTED)
